@@ -457,6 +457,18 @@ def gen_macros(rng):
     if rng.random() < 0.4:
         body.append(("push", 2, X(rng, ["outer"])))
     body.append(("op", rng.choice(SIMPLE_OPS)))
+    # an EXPRESSION macro called from inside the instruction macros' bodies, its arguments mentioning parameters and
+    # macro-local labels: substitution and label renaming must reach into the arguments of the call
+    use_ef = rng.random() < 0.5
+    if use_ef:
+        defs.append(("edef", "ef", ["v"], X(rng, rng.choice([["$v", "*", "3", "+", "1"], ["2", "+", "$v"], ["$v"]]))))
+        for p in inner_params:
+            if rng.random() < 0.7:
+                body.append(("push", 3, X(rng, rng.choice([["ef", "(", "$" + p, ")"], ["ef", "(", "$" + p, "+", "1", ")", "+", "$" + p], ["ef", "(", "ef", "(", "$" + p, ")", ")"]]))))
+        if any(b[0] == "label" for b in body):
+            body.append(rng.choice([("push", 3, X(rng, ["ef", "(", "a", ")"])), ("apush", X(rng, ["ef", "(", "a", "+", "1", ")"]))]))
+            if inner_params:
+                body.append(("push", 3, X(rng, ["ef", "(", "a", "+", "$" + inner_params[0], ")"])))
     defs.append(("mdef", "inner", inner_params, body))
     outer_params = rng.sample(["x", "y", "w"], rng.randrange(0, 3))
     obody = []
@@ -471,6 +483,8 @@ def gen_macros(rng):
         else:
             args.append(X(rng, [lit(rng, rng.randrange(0, 200))]))
     obody.append(("minv", "inner", args))
+    if use_ef and outer_params and rng.random() < 0.6:
+        obody.append(("push", 3, X(rng, ["ef", "(", "$" + outer_params[0], ")"])))
     for p in outer_params:
         obody.append(("push", 2, X(rng, ["$" + p])))
     defs.append(("mdef", "outer_m", outer_params, obody))
@@ -593,7 +607,7 @@ def inject_fault(rng, prog):
     prog = list(prog)
     kind = rng.choice(["undef_label", "dup_label", "undef_imacro", "undef_emacro", "dup_macro", "arity", "div0", "too_large",
                        "negative", "undef_var", "self_macro", "self_emacro", "surplus_undef_label", "surplus_undef_macro",
-                       "emacro_cycle_via_arg"])
+                       "emacro_cycle_via_arg", "dup_label_in_macro", "emacro_is_imacro", "imacro_is_emacro"])
     pos = rng.randrange(0, len(prog) + 1)
     if kind == "undef_label": prog.insert(pos, ("push", 2, X(rng, rng.choice([["nowhere"], ["nowhere", "+", "1"], ["2", "*", "nowhere"]]))))
     elif kind == "dup_label": prog[pos:pos] = [("label", "dd")]; prog.insert(rng.randrange(0, len(prog) + 1), ("label", "dd"))
@@ -627,6 +641,12 @@ def inject_fault(rng, prog):
         else:
             prog.insert(1, ("edef", "cyc", [], X(rng, ["idq", "(", "1", "+", "cyc", "(", ")", ")", "*", "2"])))
         prog.append(rng.choice([("push", 1, X(rng, ["cyc", "(", ")"])), ("apush", X(rng, ["cyc", "(", ")"]))]))
+    elif kind == "dup_label_in_macro":
+        prog.insert(0, ("mdef", "dlm", [], [("label", "zz"), ("op", "jumpdest"), ("label", "zz")])); prog.insert(rng.randrange(1, len(prog) + 1), ("minv", "dlm", []))
+    elif kind == "emacro_is_imacro":
+        prog.insert(0, ("mdef", "imx", [], [("op", "pc")])); prog.insert(rng.randrange(1, len(prog) + 1), ("push", 1, X(rng, rng.choice([["imx", "(", ")"], ["1", "+", "imx", "(", ")"]]))))
+    elif kind == "imacro_is_emacro":
+        prog.insert(0, ("edef", "emx", [], X(rng, ["7"]))); prog.insert(rng.randrange(1, len(prog) + 1), ("minv", "emx", []))
     elif kind == "self_macro": prog.insert(0, ("mdef", "rec", [], [("op", "pc"), ("minv", "rec", [])])); prog.append(("minv", "rec", []))
     elif kind == "self_emacro": prog.insert(0, ("edef", "rece", ["x"], X(rng, ["rece", "(", "$x", ")"]))); prog.append(("push", 1, X(rng, ["rece", "(", "1", ")"])))
     return prog, kind
